@@ -297,17 +297,22 @@ def validate_trace(module, trace_path, name, chunk_events=1500, par=8, timeout=1
                 res["states"] += int(m[-1])
             if pr.returncode == 124:
                 raise ToolError("trace validation timed out on " + ch[0])
-            rej = re.search(r'<<"TRACE-REJECT", (\d+), (.*)>>', txt)
+            flat = re.sub(r"\s+", " ", txt)
+            rejs = re.findall(r'<< ?"TRACE-REJECT", (\d+), (.*?)>> TRUE', flat)
             stopped = re.search(r'<<"TRACE-STOPPED-AT", (\d+)>>', txt)
+            res["discarded"] = res.get("discarded", 0) + len(re.findall(r'"[A-Z]+-DISCARDED"', txt))
             okrun = "Model checking completed. No error has been found." in txt
-            if okrun and not rej and not stopped:
+            if okrun and not rejs and not stopped:
                 res["accepted_chunks"] += 1
-            elif rej or stopped:
-                ln = int(rej.group(1)) if rej else int(stopped.group(1))
-                ev = None
-                if 1 <= ln <= len(ch[2]):
-                    ev = json.loads(ch[2][ln - 1])
-                res["rejects"].append({"chunk": ch[0], "line": ch[1] + ln, "what": rej.group(2) if rej else "no action of the trace specification matches", "event": ev})
+            elif rejs or stopped:
+                for ln, what in rejs[:50]:
+                    ln = int(ln)
+                    ev = json.loads(ch[2][ln - 1]) if 1 <= ln <= len(ch[2]) else None
+                    res["rejects"].append({"chunk": ch[0], "line": ch[1] + ln, "what": what.strip(), "event": ev})
+                if stopped and not rejs:
+                    ln = int(stopped.group(1))
+                    ev = json.loads(ch[2][ln - 1]) if 1 <= ln <= len(ch[2]) else None
+                    res["rejects"].append({"chunk": ch[0], "line": ch[1] + ln, "what": "no action of the trace specification matches", "event": ev})
             else:
                 log(head_nontag(out, 40))
                 raise ToolError("TLC failed while validating " + ch[0])
